@@ -5,7 +5,14 @@ from . import parts
 
 def run(tier):
     ck = common.Check('C15', tier)
-    res = parts.run_parts(ck, tier, ir_parts=('ir_iter',))
+    def keep(part, x):
+        if part != 'ir_laws':
+            return True
+        # of the operation laws (C01) only the single-pass / multi-pass iterator overloads: their result
+        # must be the position std::vector specifies - the same as for a random-access range
+        op = (x.key or {}).get('operation') if not x.ok else (x.sample or {}).get('operation')
+        return x.rule == 'R01.2' and op is not None and ', x' in op
+    res = parts.run_parts(ck, tier, ir_parts=('ir_iter', 'ir_laws'), rule_filter=keep)
     from .. import irrules
     irrules.run_canaries(ck, {'ir_iter': [('R15.1', 'canary_double_deref')]})
     r = res.get('ir_iter', [])
@@ -20,5 +27,8 @@ def run(tier):
         '"not at end", exactly one dereference per position, increment only after the read, and no use of a copy that shares its position '
         'with an iterator advanced since (handing an iterator to a callee that can advance it makes other copies stale). '
         'R15.2: the generator constructor calls the generator at exactly one site, inside one loop, on every path through the loop '
-        'body, and the loop is bounded by begin + count. Not decided: equality of the result with a random-access range; R15.3 '
+        'body, and the loop is bounded by begin + count. R01.2 (from the operation laws of C01, iterator-category overloads only): the '
+        'iterator returned by insert/append with a single-pass or forward range is the specified position relative to data() after the '
+        'call - in particular not an address computed before a step that may reallocate. Not decided: equality of the resulting '
+        'contents with a random-access range; R15.3 '
         '(forward ranges not walked past last) is covered only through C12\'s length guards.')
